@@ -67,24 +67,28 @@ Record Inv (s : stage) : Prop := mkInv {
               exists r, In r (rlog s) /\ rec_target r = t /\ H b = l_hash r;
   inv_log : forall r, In r (rlog s) -> l_hash r = ver (l_name r);
   inv_heap : Forall obj_ok (heap s);
-  inv_cmp : forall n c, In (n, c) (cmps s) -> c_hash c = ver n
+  inv_cmp : forall n c, In (n, c) (cmps s) -> c_hash c = ver n;
+  (* a file left under its lock name in the final directory by a crash inside
+     fileutil.Move was validated and logged before *)
+  inv_flck : forall t b, In (t, b) (flcks s) ->
+             exists r, In r (rlog s) /\ rec_target r = t /\ H b = l_hash r
 }.
 
 (* states that agree on the five fields the invariant reads *)
 Definition same5 (s s' : stage) : Prop :=
   waits s' = waits s /\ finals s' = finals s /\ rlog s' = rlog s /\
-  heap s' = heap s /\ cmps s' = cmps s.
+  heap s' = heap s /\ cmps s' = cmps s /\ flcks s' = flcks s.
 
 Lemma inv_same5 s s' : same5 s s' -> Inv s -> Inv s'.
 Proof.
-  intros [A [B [C [D E]]]] [I1 I2 I3 I4 I5].
-  constructor; rewrite ?A, ?B, ?C, ?D, ?E; auto.
+  intros [A [B [C [D [E F]]]]] [I1 I2 I3 I4 I5 I6].
+  constructor; rewrite ?A, ?B, ?C, ?D, ?E, ?F; auto.
 Qed.
 
 (* replacing one heap object by an ok one *)
 Lemma inv_set_obj s o f : Inv s -> ((o < length (heap s))%nat -> obj_ok f) -> Inv (set_obj s o f).
 Proof.
-  intros [I1 I2 I3 I4 I5] Hf. constructor; simpl; auto.
+  intros [I1 I2 I3 I4 I5 I6] Hf. constructor; simpl; auto.
   apply list_set_forall; auto.
 Qed.
 
@@ -157,7 +161,7 @@ Proof.
                then set_cmps (aremove n (cmps s0)) s0 else s0).
     assert (I1 : Inv s1).
     { unfold s1. destruct (ahas n (cmps s0) && _); auto.
-      destruct I0 as [A B C D E]. constructor; simpl; auto. intros n0 c Hin. apply E. eapply aremove_in; eauto. }
+      destruct I0 as [A B C D E G]. constructor; simpl; auto. intros n0 c Hin. apply E. eapply aremove_in; eauto. }
     eapply inv_same5; [|exact I1]. repeat split.
 Qed.
 
@@ -183,7 +187,7 @@ Proof.
   set (c1 := mkcomp (c_renamed c0) (c_prev c0) (c_size c0) (c_hash c0) (add_part (c_parts c0) (p_beg p) (p_end p))).
   set (s3 := set_cmps (aset n c1 (cmps s2)) s2).
   assert (I3 : Inv s3).
-  { destruct I2 as [A B C D E]. constructor; simpl; auto. intros n0 c Hin.
+  { destruct I2 as [A B C D E G]. constructor; simpl; auto. intros n0 c Hin.
     apply aset_in in Hin as [Hin|Hin]; [inversion Hin; subst; simpl; auto | auto]. }
   destruct (complete (c_parts c1) (c_size c1)); [|exact I3].
   destruct (match cache_obj s3 n with
@@ -192,14 +196,14 @@ Proof.
   - set (s4 := set_parts (aremove n (parts s3)) s3).
     assert (I4 : Inv s4) by (eapply inv_same5; [|exact I3]; repeat split).
     simpl. destruct (ST_FINALIZED <=? cache_state s4 n); auto.
-    apply inv_unlock. destruct I4 as [A B C D E]. constructor; simpl; auto.
+    apply inv_unlock. destruct I4 as [A B C D E G]. constructor; simpl; auto.
     intros n0 c Hin. apply E. eapply aremove_in; eauto.
   - set (s4 := set_fulls (aset n d' (fulls s3)) (set_parts (aremove n (parts s3)) s3)).
     assert (I4 : Inv s4) by (eapply inv_same5; [|exact I3]; repeat split).
     simpl.
     set (f := mkff n (p_renamed p) (p_prev p) (p_size p) (p_hash p) ST_RECEIVED 0 false false).
     assert (I5 : Inv (set_heap (heap s4 ++ [f]) s4)).
-    { destruct I4 as [A B C D E]. constructor; simpl; auto. apply Forall_app; split; auto. }
+    { destruct I4 as [A B C D E G]. constructor; simpl; auto. apply Forall_app; split; auto. }
     eapply inv_same5; [|apply inv_to_cache; exact I5]. repeat split.
 Qed.
 
@@ -215,11 +219,11 @@ Proof.
     + apply name_eqb_eq in E.
       set (s1 := set_waits (aset n body (waits s0)) (set_fulls (aremove n (fulls s0)) s0)).
       assert (I1 : Inv s1).
-      { destruct I0 as [A B C D F]. constructor; simpl; auto. intros n0 b Hin.
+      { destruct I0 as [A B C D F G]. constructor; simpl; auto. intros n0 b Hin.
         apply aset_in in Hin as [Hin|Hin]; [inversion Hin; subst; rewrite E; apply Hf | auto]. }
       eapply inv_same5; [|apply inv_to_cache; exact I1]. repeat split.
     + apply inv_to_cache; auto.
-  - apply inv_to_cache. destruct I0 as [A B C D F]. constructor; simpl; auto.
+  - apply inv_to_cache. destruct I0 as [A B C D F G]. constructor; simpl; auto.
     intros n0 c Hin. apply F. eapply aremove_in; eauto.
 Qed.
 
@@ -252,9 +256,10 @@ Proof.
   set (rcd := mklr (f_name f) (f_renamed f) (f_hash f) (f_size f) now).
   set (s2 := set_rlog (rlog s1 ++ [rcd]) s1).
   assert (I2 : Inv s2).
-  { destruct I1 as [A B C D E]. constructor; simpl; auto.
+  { destruct I1 as [A B C D E G]. constructor; simpl; auto.
     - intros t b Hin. destruct (B t b Hin) as [r [R1 R2]]. exists r. split; auto. apply in_or_app; auto.
-    - intros r Hin. apply in_app_or in Hin as [Hin|[<-|[]]]; auto. }
+    - intros r Hin. apply in_app_or in Hin as [Hin|[<-|[]]]; auto.
+    - intros t b Hin. destruct (G t b Hin) as [r [R1 R2]]. exists r. split; auto. apply in_or_app; auto. }
   set (s3 := set_obj s2 o (with_logged (obj s2 o) now)).
   assert (I3 : Inv s3).
   { apply inv_set_obj; auto; intros Ho2; unfold obj_ok; simpl; apply (obj_ok_obj s2 o I2 Ho2). }
@@ -267,7 +272,7 @@ Proof.
       by (induction l as [|x r IH]; intros [|j] v d Hi; simpl in *; try lia; auto; apply IH; lia).
     rewrite G by exact Ho. simpl. unfold obj. rewrite (nth_error_nth _ _ _ N). reflexivity. }
   assert (I4 : Inv s4).
-  { destruct I3 as [A B C D E]. constructor; simpl; auto.
+  { destruct I3 as [A B C D E G]. constructor; simpl; auto.
     - intros n0 b Hin. apply A. eapply aremove_in; eauto.
     - intros t b Hin. apply aset_in in Hin as [Hin|Hin]; [|auto].
       inversion Hin; subst t b. exists rcd. split; [simpl; apply in_or_app; right; left; auto|].
@@ -275,7 +280,7 @@ Proof.
   set (s5 := to_cache s4 o ST_FINALIZED). assert (I5 : Inv s5) by (apply inv_to_cache; auto).
   set (s6 := unlock n (set_cmps (aremove n (cmps s5)) s5)).
   assert (I6 : Inv s6).
-  { apply inv_unlock. destruct I5 as [A B C D E]. constructor; simpl; auto.
+  { apply inv_unlock. destruct I5 as [A B C D E G]. constructor; simpl; auto.
     intros n0 c Hin. apply E. eapply aremove_in; eauto. }
   eapply inv_same5; [|exact I6]. repeat split.
 Qed.
@@ -338,7 +343,7 @@ Proof.
   match goal with |- Inv (let '(del, delc) := ?x in _) => destruct x as [del delc] end.
   set (s1 := if del then set_parts (aremove n (parts s)) s else s).
   assert (I1 : Inv s1) by (unfold s1; destruct del; auto; eapply inv_same5; [|exact I]; repeat split).
-  destruct delc; auto. destruct I1 as [A B C D E]. constructor; simpl; auto.
+  destruct delc; auto. destruct I1 as [A B C D E G]. constructor; simpl; auto.
   intros n0 c Hin. apply E. eapply aremove_in; eauto.
 Qed.
 
@@ -381,7 +386,7 @@ Proof.
 Qed.
 
 Lemma inv_crash s : Inv s -> Inv (crash s).
-Proof. intros [A B C D E]. constructor; simpl; auto. Qed.
+Proof. intros [A B C D E G]. constructor; simpl; auto. Qed.
 
 Lemma inv_recover_fold : forall (l : list (name * comp)) s fin val,
   (forall n c, In (n, c) l -> c_hash c = ver n) -> Inv s ->
@@ -393,14 +398,23 @@ Proof.
   assert (Hone : Inv (fst (fst (recover_one (s, fin, val) (n, c))))).
   { unfold recover_one.
     assert (Happ : forall s0 st, Inv s0 -> Inv (set_heap (heap s0 ++ [comp_to_obj n c st]) s0)).
-    { intros s0 st [A B C D E]. constructor; simpl; auto. apply Forall_app; split; auto. }
+    { intros s0 st [A B C D E G]. constructor; simpl; auto. apply Forall_app; split; auto. }
     destruct (ahas n (waits s)); [apply Happ; exact I|].
     destruct (ahas n (fulls s)); [apply Happ; exact I|].
     destruct (alookup n (parts s)) as [sf|].
     - destruct (complete (c_parts c) (c_size c)); [|exact I].
       apply (Happ (set_fulls (aset n (sf_data sf) (fulls s)) (set_parts (aremove n (parts s)) s)) ST_RECEIVED).
       eapply inv_same5; [|exact I]. repeat split.
-    - destruct I as [A B C D E]. constructor; simpl; auto.
+    - set (tgt := match c_renamed c with [] => n | r => r end).
+      assert (I1 : Inv (match alookup tgt (flcks s) with
+                        | Some body => set_flcks (aremove tgt (flcks s)) (set_finals (aset tgt body (finals s)) s)
+                        | None => s end)).
+      { destruct (alookup tgt (flcks s)) as [body|] eqn:L; [|exact I].
+        destruct I as [A B C D E G]. constructor; simpl; auto.
+        - intros t b Hin. apply aset_in in Hin as [Hin|Hin]; [|auto].
+          inversion Hin; subst t b. apply G. apply alookup_in; auto.
+        - intros t b Hin. apply G. eapply aremove_in; eauto. }
+      destruct I1 as [A B C D E G]. constructor; simpl; auto.
       intros n0 c0 Hin. apply E. eapply aremove_in; eauto. }
   cbn [fold_left].
   destruct (recover_one (s, fin, val) (n, c)) as [[s' fin'] val']. simpl in Hone.
